@@ -231,14 +231,14 @@ inductive Op where
 
 /-- The element loop of `assignVal` ("Evaluate values for each array element").  A negative
     explicit index that is still negative after adding max+1 prints "bad array subscript" and
-    `break`s: the elements set so far are kept, the rest is dropped. -/
+    `continue`s: that element is skipped, the index counter is left unchanged (like bash). -/
 def litLoop (a : Arr) (index : Int) : List Elem → Res Arr
   | [] => .ok a
   | .at i v :: rest =>
-    let index := if i < 0 then i + (indexedMax a + 1) else i
-    if index < 0 then .ok a
-    else match setElem a index v with
-      | .ok a' => litLoop a' (index + 1) rest
+    let k := if i < 0 then i + (indexedMax a + 1) else i
+    if k < 0 then litLoop a index rest
+    else match setElem a k v with
+      | .ok a' => litLoop a' (k + 1) rest
       | .panic => .panic
   | .plain v :: rest =>
     match setElem a index v with
@@ -254,13 +254,12 @@ def baseArr (v : Var) : Arr :=
 
 /-- `setVarWithIndex` with a non-nil index `k` and value `valStr`.  An out-of-range negative index
     reports "bad array subscript" and leaves the variable alone.  The variable stored is the
-    caller's `prev` (not the copy on which `assignVal` did `prev.Set = true`), so `Set` keeps its
-    old value: an array created by `a[i]=v` is not `IsSet()`. -/
+    caller's `prev` with `Kind`, `List`, `Indexes` replaced and `Set = true`. -/
 def setWithIndex (v : Var) (base : Arr) (k : Int) (valStr : Str) : Res Var :=
   let k' := if k < 0 then k + (indexedMax base + 1) else k
   if k' < 0 then .ok v
   else match setElem base k' valStr with
-    | .ok a' => .ok ⟨.indexed, v.set, v.str, a'⟩
+    | .ok a' => .ok ⟨.indexed, true, v.str, a'⟩
     | .panic => .panic
 
 /-- `assignVal`'s `a+=s` on an indexed array: "Appends to the element at index 0". -/
@@ -273,19 +272,6 @@ def appendZero (a : Arr) (s : Str) : Res Arr :=
     | some (i0 :: is) =>
       if i0 = 0 then .ok ⟨(x ++ s) :: xs, some (i0 :: is)⟩ else setElem a 0 s
   | [] => setElem a 0 s
-
-/-- The list `setVarWithIndex` clones after `assignVal` handled `a[i]+=s` on an indexed array:
-    `assignVal` ignores `as.Index` and appends `s` to element 0.  When element 0 exists the
-    in-place `prev.List[0] += s` is seen by the clone; otherwise the inserted element is lost
-    (model: the insert reallocates; with spare capacity the real code would instead see a
-    shifted, truncated list — aliasing, outside this model). -/
-def appElemBase (a : Arr) (s : Str) : Res Arr :=
-  match a.list, a.idx with
-  | x :: xs, none => .ok ⟨(x ++ s) :: xs, none⟩
-  | _ :: _, some [] => .panic
-  | x :: xs, some (i0 :: is) =>
-    if i0 = 0 then .ok ⟨(x ++ s) :: xs, some (i0 :: is)⟩ else .ok a
-  | [], _ => .ok a
 
 /-- The array variable `assignVal` returns (`prev.Set = true`), stored as is. -/
 def liftArr (v : Var) : Res Arr → Res Var
@@ -309,10 +295,12 @@ def applyOp (v : Var) : Op → Res Var
   | .appElem i s =>
     match v.kind with
     | .indexed =>
-      -- assignVal first appends `s` to element 0 (the `as.Index` is ignored there) and returns the
-      -- array variable, whose stale `Str` then becomes the value stored at index i.
-      match appElemBase v.arr s with
-      | .ok a1 => setWithIndex v a1 i v.str
+      -- assignVal ignores `as.Index`: it appends `s` to element 0 of a *clone* of the list (so
+      -- that work is lost, apart from a possible panic on a malformed representation) and returns
+      -- the array variable, whose stale `Str` then becomes the value setVarWithIndex stores at
+      -- index i of the caller's `prev`.
+      match appendZero v.arr s with
+      | .ok _ => setWithIndex v v.arr i v.str
       | .panic => .panic
     | _ => setWithIndex v (baseArr v) i (v.str ++ s)
   | .unsetElem i =>
@@ -449,36 +437,23 @@ structure Arr.WF (a : Arr) : Prop where
   shape : ∀ ix, a.idx = some ix →
     ix.length = a.list.length ∧ Increasing ix ∧ (∀ k ∈ ix, 0 ≤ k) ∧ isIotaFrom 0 ix = false
 
-/-- Variables: the array part is well-formed, and an unset variable carries no stale string
-    (it is the zero `expand.Variable`). -/
+/-- Variables: the array part is well-formed, an unset variable carries no stale string (it is
+    the zero `expand.Variable`), and every scalar or array `IsSet()`. -/
 structure Var.WF (v : Var) : Prop where
   arr : v.arr.WF
   zero : v.kind = .unknown → v.str = []
+  isset : v.kind ≠ .unknown → v.set = true
 
-/-! ### Where the code is known to differ from bash (the three recorded findings), as a
-    decidable side condition on a run -/
+/-! ### Where the code is known to differ from bash (the recorded finding), as a decidable side
+    condition on a run -/
 
-/-- No explicit subscript of the literal is still negative after resolution (bash skips such an
-    element and goes on; the Go loop `break`s — finding C33-literal-bad-subscript). -/
-def litOK (m : SMap) (index : Int) : List Elem → Bool
-  | [] => true
-  | .plain v :: rest => litOK (m.insert index v) (index + 1) rest
-  | .at i v :: rest =>
-    let j := resolve m i
-    decide (0 ≤ j) && litOK (m.insert j v) (j + 1) rest
-
-/-- The operation is outside the recorded divergences when applied to `v`:
+/-- The operation is outside the recorded divergence when applied to `v`:
     * `a[i]+=s` only on an unset variable (finding C33-elem-append);
-    * `unset a` only on a variable that `IsSet()` (finding C33-unset-after-elem-assign);
-    * literals without out-of-range negative subscripts (finding C33-literal-bad-subscript);
     * `unset 's[-n]'` not on a scalar (bash and the code both refuse; a scalar is not quite the
       map `{0 ↦ s}` there). -/
 def opOK (v : Var) : Op → Bool
-  | .assign es => litOK [] 0 es
-  | .append es => litOK v.abs (v.abs.maxKey + 1) es
   | .appElem _ _ => v.kind == .unknown
   | .unsetElem i => v.kind != .str || decide (0 ≤ i)
-  | .unsetAll => v.set || v.kind == .unknown
   | _ => true
 
 def runOK (v : Var) : List Op → Bool
